@@ -61,8 +61,14 @@ StopRuleGuards(ev) == <<
         ev.vlNone = (epoch = 0 \/ ~cfg.hasval)>>,
    <<"StopCheck: stops exactly when the rule says so (patience / min_delta / epoch count)", ev.ret = ExpRet(ev)>>,
    <<"StopCheck: best_model is the model of the best monitored loss (last model for EpochStop)", ev.best = ExpBest(ev)>> >>
+ScriptGuards(ev) == <<
+   <<"StopCheck: the training loss handed to the condition is the epoch's mean loss (scripted run)",
+        ("script" \in DOMAIN cfg /\ ~ev.tlNone /\ epoch >= 1 /\ epoch <= Len(cfg.script)) => ev.tl = cfg.script[epoch]>>,
+   <<"StopCheck: the validation loss handed to the condition is the epoch's validation loss (scripted run)",
+        ("vscript" \in DOMAIN cfg /\ ~ev.vlNone /\ epoch >= 1 /\ epoch <= Len(cfg.vscript)) => ev.vl = cfg.vscript[epoch]>> >>
 StopCheckGuards(ev) ==
-  CASE Focus = "stop"  -> <<<<"StopCheck: epoch counter", ev.epoch = epoch /\ phase = "check">>>> \o StopRuleGuards(ev)
+  CASE Focus = "stop"  -> <<<<"StopCheck: epoch counter", ev.epoch = epoch /\ phase = "check">>,
+                            <<"StopCheck: the model passed is the current model", ev.model = version>>>> \o ScriptGuards(ev) \o StopRuleGuards(ev)
     [] Focus \in {"batch", "bank"} -> StopLoopGuards(ev)
     [] OTHER           -> StopLoopGuards(ev) \o StopRuleGuards(ev)
 StopCheck(ev) ==
@@ -117,6 +123,7 @@ ValBatches(ev) ==
 (* ---------------- TrainStep --------------------------------------------------------------- *)
 (* ev : [x : Seq(Seq(Nat)) (per input type), y : Seq(Seq(Nat)) (per target type), vin, vout, bank] *)
 TrainStepGuards(ev) ==
+  IF Focus = "stop" THEN <<<<"TrainStep: exactly one optimiser step on the current model", ev.vin = version /\ ev.vout = version + 1>>>> ELSE
   <<<<"TrainStep: the loop is inside an epoch", phase = "stepping" /\ step < NB(cfg)>>>>
   \o (IF BatchFocus THEN <<
         <<"TrainStep: the inputs are the next batch, for every tensor type",
@@ -126,14 +133,20 @@ TrainStepGuards(ev) ==
   \o <<<<"TrainStep: exactly one optimiser step on the current model", ev.vin = version /\ ev.vout = version + 1>>>>
   \o (IF Focus \in {"all", "bank"} THEN
         <<<<"TrainStep: the invariant filter bank changes at most by a common rescaling", ev.bank \in {"same", "scaled"}>>>> ELSE <<>>)
-TrainStep(ev) ==
-  /\ AllTrue(TrainStepGuards(ev))
+TrainStepFull(ev) ==
   /\ version' = version + 1
   /\ step' = step + 1
   /\ bank' = IF ev.bank = "same" THEN bank ELSE "scaled"
   /\ epoch' = IF step + 1 = NB(cfg) THEN epoch + 1 ELSE epoch
   /\ phase' = IF step + 1 = NB(cfg) THEN (IF cfg.hasval THEN "validate" ELSE "check") ELSE "stepping"
   /\ UNCHANGED <<cfg, best, bestModel, since, stopped, batches, hist>>
+
+TrainStep(ev) ==
+  /\ AllTrue(TrainStepGuards(ev))
+  /\ IF Focus = "stop"
+     THEN /\ version' = version + 1
+          /\ UNCHANGED <<cfg, epoch, phase, best, bestModel, since, stopped, step, batches, bank, hist>>
+     ELSE TrainStepFull(ev)
 
 (* ---------------- Return ------------------------------------------------------------------ *)
 ReturnGuards(ev) == <<
